@@ -12,7 +12,7 @@ import (
 
 func main() {
 	if len(os.Args) > 1 && os.Args[1] == "--worker" {
-		debug.SetMaxStack(96 << 20)
+		debug.SetMaxStack(24 << 20)
 		h.WorkerMain()
 		return
 	}
